@@ -2,6 +2,7 @@ package layerb
 
 import (
 	"bytes"
+	"context"
 	"encoding/json"
 	"fmt"
 	"os"
@@ -56,6 +57,8 @@ type Conv struct {
 	// Outcome of generation
 	GenOK  bool   `json:"gen_ok"`
 	GenErr string `json:"gen_err,omitempty"`
+	// GenCrash: "panic" or "timeout" when the goverter process crashed or did not terminate (C13)
+	GenCrash string `json:"gen_crash,omitempty"`
 }
 
 func (c *Conv) subst(s string) string {
@@ -297,7 +300,9 @@ func (c *Corpus) runGroup(group string) (string, error) {
 		}
 	}
 	args = append(args, "./"+group)
-	cmd := exec.Command(c.Goverter, args...)
+	ctxT, cancel := context.WithTimeout(context.Background(), 90*time.Second)
+	defer cancel()
+	cmd := exec.CommandContext(ctxT, c.Goverter, args...)
 	cmd.Dir = c.Dir
 	cmd.Env = append(os.Environ(), "GOFLAGS=-mod=mod", "GOPROXY=off", "GOSUMDB=off", "GOTOOLCHAIN=local")
 	var out bytes.Buffer
@@ -305,8 +310,18 @@ func (c *Corpus) runGroup(group string) (string, error) {
 	cmd.Stderr = &out
 	t0 := time.Now()
 	err := cmd.Run()
+	crash := ""
+	if ctxT.Err() != nil {
+		crash = "timeout"
+		out.WriteString("\ngoverter did not terminate within 90s")
+	} else if err != nil && (strings.Contains(out.String(), "panic: ") || strings.Contains(out.String(), "goroutine 1 [")) {
+		crash = "panic"
+	}
 	c.mu.Lock()
 	defer c.mu.Unlock()
+	if crash != "" && len(c.Groups[group]) == 1 {
+		c.Groups[group][0].GenCrash = crash
+	}
 	c.GenTime += time.Since(t0)
 	c.Runs++
 	for p := range listGo(dir) {
